@@ -136,8 +136,9 @@ func valueMatches(v any, n *TNode, path string) string {
 		if !ok || !s.IsInit() {
 			return fmt.Sprintf("%s: %s, expected a %s stack", path, Show(v), n.Kind)
 		}
-		if !strings.EqualFold(s.Kind(), n.Kind) {
-			return fmt.Sprintf("%s: kind %s, expected %s", path, s.Kind(), n.Kind)
+		// (Stack.Kind() reports the presentation symbol when one is set; the kind proper is read from the raw record)
+		if d, _ := stackage.VerifDump(s); !strings.EqualFold(kindWord[d.Typ], n.Kind) {
+			return fmt.Sprintf("%s: kind %s, expected %s", path, kindWord[d.Typ], n.Kind)
 		}
 		if s.Len() != len(n.Kids) {
 			return fmt.Sprintf("%s: %d elements, expected %d", path, s.Len(), len(n.Kids))
@@ -224,6 +225,14 @@ func c04Run(c *core.Ctx, idx int) {
 					n.Fold = true
 				}
 				withCapOrFold = true
+			}
+		})
+	}
+	if r.Chance(1, 4) {
+		// presentation symbols must not leak into the marshalled form
+		tree.Walk(func(n *TNode) {
+			if n.T == "stack" && n.Kind != "LIST" && r.Chance(1, 2) {
+				n.Sym = []string{"&&", "||", "!", "und"}[r.Intn(4)]
 			}
 		})
 	}
